@@ -55,6 +55,30 @@ SEEDS = {
  "C18-D": ("faults", "C18", "listing taken between the decrement that exhausts a fault and the asynchronous prune, or a fault added with count <= 0: Current() no longer filters Count > 0"),
  "C17-C": ("services", "C17", "an UpdateSubscription whose mask names only CLEARING paths (filter \"\", retry_policy / push_config / dead_letter_policy absent): the no-op guard looks at set fields only, so the update is silently dropped"),
  "C17-D": ("services", "C17,C04", "CreateSubscription with a retry_policy that has only maximum_backoff: SetMaxBackoff was nested under the minimum_backoff branch, so the policy is not stored (Get shows none, the cap is the default)"),
+ "C06-C": ("actions", "C06,C01", "the dead-letter topic has a live FILTERED subscription the exhausted message does not satisfy: the forward loop returns at the first filter miss, nobody gets the message and the source delivery is not retired"),
+ "C06-D": ("actions", "C06,C14", "attempts exhausted, silent subscriber, retention over, sweep before the expired-deliveries prune: the sweep lost ExpiresAtGT(now) and forwards an expired message"),
+ "C08-C": ("services", "C08", "a name that once held a valid filter, then UpdateSubscription(filter) / delete + re-create with a non-sentence: a parse cache keyed by name returns the old result without looking at the text"),
+ "C08-D": ("filter", "C08", "double negation written with parentheses, NOT (NOT attributes:x): the renderer drops parentheses around a single term and produces `NOT NOT ...`, which does not parse"),
+ "C04-C": ("actions", "C04", "no configured maximum backoff and min x 1.1^n above 10 minutes (1 h minimum; or attempt >= 43 with defaults): the default cap moved inside the `max configured` branch, the lease grows without bound"),
+ "C04-D": ("actions", "C04,C10", "a pull that WAITED (blocked W seconds) before the message was published: `now` is captured once before the long poll, so the lease starts W seconds in the past"),
+ "C02-C": ("services", "C02,C01", "same class as C01-B found independently: a filter miss on one subscription `break`s the publish fan-out for its siblings"),
+ "C02-D": ("services", "C02,C07", "same class as C07-B found independently: parsed-filter cache keyed by subscription name survives UpdateSubscription(filter) and delete + re-create"),
+ "C13-C": ("actions", "C13,C14", "subscription whose TTL differs from its message retention, seek-to-time that revives something: the fresh retention is taken from TTL instead of MessageTTL"),
+ "C13-D": ("actions", "C13", "snapshot taken while the oldest unacked message is leased and a newer one has never been pulled: `oldest unacked` is chosen by attempt_at instead of published_at"),
+ "C16-C": ("services", "C16", "ListTopicSubscriptions with a NEGATIVE page_size and an empty page: `!= 0` instead of `> 0`, index out of range -> handler panic"),
+ "C16-D": ("services", "C16,C08", "(against the pre-F18 guard) string literal ending in an escaped backslash followed by deep nesting: look-behind escape handling blinds the nesting pre-scan"),
+ "C05-C": ("actions", "C05,C13", "ordered sub + sibling sub; the sibling acks a LATER same-key message; snapshot + seek of the ordered sub: the snapshot's acked list leaks sibling acks, a middle element is completed and its successor released"),
+ "C05-D": ("actions", "C05", "ordered sub with dead-letter policy, predecessor on its LAST permitted attempt (attempts == max) and still leased: it stops blocking its key"),
+ "C15-C": ("actions", "C15,C01", "prune-expired-deliveries with a non-zero MinAge: the sign is flipped, so outstanding deliveries expiring within the next MinAge are deleted"),
+ "C15-D": ("actions", "C15,C06", "regression of F11 through another slip: the dead-letter guard of prune-deleted-topics compares the wrong table's id, a live subscription loses its dead-letter policy"),
+ "C01-C": ("actions", "C01,C15", "same change as C15-C found independently (expired-delivery pruner, MinAge sign)"),
+ "C01-D": ("services", "C01,C07", "same class as C07-B / C02-D found independently: stale parsed-filter cache loses messages that satisfy the NEW filter"),
+ "C11-C": ("actions", "C11", "an ack on the stream fully digested before the slow Send of that very message returns: `pending` is filled after the send, leaving a phantom entry"),
+ "C11-D": ("services", "C11", "gRPC stream with a message limit and NO byte limit (never sends) or a byte limit and no message limit (byte limit overwritten with 10 MiB): wrong identifier in effectiveFlowControl"),
+ "C03-C": ("actions", "C03,C13", "ack, then Seek(time) with publish time < T < end of the last lease: the un-ack half compares attempt_at instead of published_at"),
+ "C03-D": ("actions", "C03,C02,C13", "two subscriptions on one topic, snapshot seek on one: the un-ack update is scoped by the snapshot's topic, so the bystander's acked messages come back"),
+ "C10-C": ("actions", "C10", "regression of F2 through another slip (`break` for `continue` in WakePublishListeners): one zero-deadline nack spanning two subscriptions, waiter on the later one"),
+ "C10-D": ("actions", "C10", "a pull waiting on the DEAD-LETTER subscription while a forward arrives: the wake-up moved from deliverToSubscription into PublishMessage only"),
 }
 only = sys.argv[1:]
 for sid, (pkg, checks, needs) in SEEDS.items():
